@@ -335,6 +335,11 @@ namespace
 	   && a->get_import () != nullptr
 	   && (a = a->get_import ().get ()));
 
+    // The parent was reached along the same chain of imports as A.
+    if (d == doneness::cooked)
+      return std::make_unique <value_die> (a->get_dwctx (), a->get_import (),
+					   par_die, 0, d);
+
     return std::make_unique <value_die> (a->get_dwctx (), par_die, 0, d);
   }
 }
